@@ -1,5 +1,5 @@
 """What MANIFEST.json claims, per property (edited by hand; tools/mkmanifest.py renders it)."""
-HOOK_COMMITS = ["7ed0aad", "d8606cd"]
+HOOK_COMMITS = ["7ed0aad", "d8606cd", "08f1a83"]
 NOTES = ("Every check rebuilds the harness against /repo's working tree and the Lean project, runs the proof stage "
          "(lake build of the property's theorem module + #print axioms audit), the model/implementation correspondence "
          "and the property oracle on the implementation. Genuine defects found are repaired by fix: commits in /repo "
@@ -8,6 +8,16 @@ NOT_YET = {}
 TB = ("Trusted: Lean kernel (axioms propext, Classical.choice, Quot.sound only; audited by #print axioms on every run); "
       "the hand-written model's correspondence to the code (differential, bounded by the generators whose distribution is in the evidence); ")
 CLAIMS = {
+ "C18": dict(
+  category="proof",
+  text=("Lean 4 theorems over a model of TimeoutSettings: the constructor rejects a zero read/write/connect duration with InvalidInput whatever "
+        "the other values and accepts everything else unchanged; a command-line flag value that parses to zero is rejected and whatever the flags "
+        "accept has three non-zero durations; deserialisation is the constructor; every configuration accepted by any path (or Default, or none) "
+        "passes apply_timeout's unwraps and makes connect_timeout at worst return an error value; the retry combinator has no crash of its own for "
+        "any retry count. Tie + oracle: the quantifier's matrix enumerated exhaustively through new / serde_json / clap on the real code, every "
+        "accepted value then used on real UDP and TCP sockets, extreme retry counts on scripted queries."),
+  note=TB + "clap/serde derive output is modelled (field-wise construction through parse_duration_secs / try_from), std socket-option behaviour is exercised on real sockets, not proved.",
+  technique="Lean 4 proof (decision logic of the three construction paths) + exhaustive configuration matrix on the real code"),
  "C16": dict(
   category="proof",
   text=("Lean 4 theorems: (1) for ANY three ordered groups of filters (hence every iteration order of the three hash maps), any region and seed, "
